@@ -405,6 +405,20 @@ def exotic_examples(chk, rng, tier, stats):
                 chk.add_failure({"exotic": True, "F": "[" + ", ".join(ex[i][0] for i in fi) + "]", "T": "[" + ", ".join(ex[i][0] for i in ti) + "]", "position": pos},
                                 {"what": "a yielded predicate does not separate the two example sets (values related by subclassing / equality across types)", "predicate": repr(q), "not_true_on": bad_t, "not_false_on": bad_f}, None)
                 break
+    # large example sets (33-70 examples on one side): whatever is yielded separates them, whatever the sizes
+    big = [([5.5, "x"], list(range(1, 34))), (list(range(1, 41)), [5.5, 6.5]), (["s%d" % k for k in range(40)], list(range(40))), ([None], [k / 2 for k in range(1, 70)]),
+           ([[k] for k in range(35)], [(k,) for k in range(3)] + list(range(33))), (list(range(33)) + ["x"], [True, False] * 17)]
+    for F, T in big:
+        items, status, _ = pull(list(F), list(T), 10, EVENTS_SHALLOW * 20)
+        runs += 1
+        for pos, q in enumerate(items):
+            bad_t = [repr(x) for x in T if call(q, x) is not True][:3]
+            bad_f = [repr(x) for x in F if call(q, x) is not False][:3]
+            judged += 1
+            if bad_t or bad_f:
+                chk.add_failure({"exotic": True, "F": f"{len(F)} examples starting {F[:2]!r}", "T": f"{len(T)} examples starting {T[:2]!r}", "position": pos},
+                                {"what": "a yielded predicate does not separate two large example sets", "predicate": repr(q), "not_true_on": bad_t, "not_false_on": bad_f}, None)
+                break
     chk.evaluations += judged
     stats["exotic_example_pairs"] = runs
     chk.extra["exotic_example_pairs"] = {"pairs": runs, "yields_judged": judged}
